@@ -25,6 +25,7 @@ type clause struct {
 	Exprs []cExpr // decreases tuple
 	File  string
 	Line  int
+	FromExternal bool // the clause was written in an `external` block of a client package (see contract.Mixed)
 }
 
 type specParam struct{ Name, Type string }
@@ -75,6 +76,8 @@ type contract struct {
 	Modifies  []string // heap keys; nil = computed
 	Emits     []*clause // ghost events: NAME = EXPR (definitional: assumed at call sites, never an obligation)
 	NoReturn  bool
+	Mixed     bool // has both an `external` block (a client's assumptions) and a `contract` block of its own
+	curExternal bool // parser state: the block being read is the external one
 	UnreachableLayer string
 	Unreachable bool // the precondition (with the receiver's type) is unsatisfiable: never called under its contract
 	File      string
@@ -307,10 +310,21 @@ func (db *contractDB) loadContractFile(path, pkgPath string) error {
 				if prev.Interface != c.Interface {
 					return fail("conflicting contract kinds for %s", ref)
 				}
-				if prev.External != c.External {
+				if prev.External != c.External || prev.Mixed {
 					// a module function described as `external` by a client package (what that client assumes of it)
-					// and under `contract` in its own package: one contract, verified like any other
+					// and under `contract` in its own package: one contract; it is verified, and used as a verified
+					// contract, in the layers its own clauses speak about, and stays an assumption elsewhere
+					if prev.External {
+						for _, cl := range prev.Clauses {
+							cl.FromExternal = true
+						}
+						for _, cl := range prev.Emits {
+							cl.FromExternal = true
+						}
+					}
 					prev.External = false
+					prev.Mixed = true
+					prev.curExternal = c.External
 				}
 				if len(prev.Names) == 0 {
 					prev.Names = c.Names
@@ -364,6 +378,9 @@ func (db *contractDB) loadContractFile(path, pkgPath string) error {
 					return fail("%v", err)
 				}
 				cl.Expr = e
+				if cur.Mixed && cur.curExternal {
+					cl.FromExternal = true
+				}
 				cur.Emits = append(cur.Emits, cl)
 				continue
 			case "decreases":
@@ -444,6 +461,9 @@ func (db *contractDB) loadContractFile(path, pkgPath string) error {
 					return fail("%v", err)
 				}
 				cl.Expr = e
+			}
+			if cur.Mixed && cur.curExternal {
+				cl.FromExternal = true
 			}
 			cur.Clauses = append(cur.Clauses, cl)
 		}
@@ -606,6 +626,22 @@ func (ct *contract) clausesFor(layer string) []*clause {
 		}
 	}
 	return out
+}
+
+// externalIn: in this layer the contract is an assumption about a function that is not verified here.
+func (ct *contract) externalIn(layer string) bool {
+	if ct.External {
+		return true
+	}
+	if !ct.Mixed {
+		return false
+	}
+	for _, cl := range ct.Clauses {
+		if !cl.FromExternal && (cl.Layer == layer || cl.Layer == "") {
+			return false
+		}
+	}
+	return true
 }
 
 func (ct *contract) hasLayer(layer string) bool {
